@@ -17,7 +17,7 @@ ASSUMPTIONS = ["contents of rich/_cell_widths.py CELL_WIDTHS are the Unicode wid
                "reference width = independent linear walk over that table"]
 REQUIRED = ["mon.threshold_sizes", "mon.get_line_length", "mon.result_poisoning", "mon.codepoint", "mon.codepoint_orders", "mon.cell_len", "mon.cache_history", "mon.set_cell_size",
             "mon.chop_cells", "mon.adjust_line_length", "mon.split_and_crop", "mon.set_shape",
-            "mon.simplify", "mon.split_lines"]
+            "mon.simplify", "mon.split_lines", "mon.incremental_consumer"]
 MIN_NONTRIVIAL = {"quick": 2000, "thorough": 20000}
 EXHAUSTIVE = {"quick": False, "thorough": False}
 
